@@ -444,13 +444,23 @@ func c07main(c *Ctx) {
 		if f == FJSON && !wide && r.P(8) {
 			lg.SetAttrs(slog.NewAttr("", "own#empty"))
 			own[depth-1] = append(own[depth-1], srcKV{key: "", src: "own#empty"})
-			args = append(args, slog.NewAttrs("zz-bundle", "call#bundle"), slog.NewAttr("", "call#empty"))
+			if r.Bool() {
+				args = append(args, slog.NewAttrs("zz-bundle", "call#bundle"), slog.NewAttr("", "call#empty"))
+			} else {
+				// (the empty key as the key of a plain PAIR, a string value after it and a pair behind that)
+				args = append(args, slog.NewAttrs("zz-bundle", "call#bundle"), "", "call#empty")
+			}
 			call = append(call, srcKV{key: "zz-bundle", src: "call#bundle"}, srcKV{key: "", src: "call#empty"})
 			c.R.Add("records_with_the_empty_key_at_two_levels_and_a_bundle_between", 1)
 		}
+		// the record may go through a printf-style verb (no attributes of its own, and no context: Infof has none to
+		// read): ancestors and the logger supply the attributes
+		viaPrintfCand := len(args) == 0 && idx%2 == 0 && !nilCtx
 		// reference
 		var all []srcKV
-		all = append(all, ctxList...)
+		if !viaPrintfCand {
+			all = append(all, ctxList...)
+		}
 		if inherit {
 			for d := 0; d < depth-1; d++ {
 				all = append(all, own[d]...)
@@ -471,7 +481,7 @@ func c07main(c *Ctx) {
 		}
 		// the logger may be the process's DEFAULT logger (handed to SetDefault as the *Entry it is), the record issued
 		// through the package-level function: the same sources, the same rule
-		viaPkg := r.P(12)
+		viaPkg := r.P(12) && !viaPrintfCand
 		if !viaPkg && r.P(20) {
 			// the process's default logger (no ancestor of this chain) has attributes of its own, app-wide ones: they are the
 			// default logger's
@@ -488,7 +498,12 @@ func c07main(c *Ctx) {
 			defer slog.SetDefault(savedDef)
 			c.R.Add("records_through_a_package_level_function_with_the_logger_as_default", 1)
 		}
-		viaLog := !viaPkg && !nilCtx && idx%6 == 1
+		// ... or through a printf-style verb (it takes no attributes of its own: context, ancestors and the logger supply them)
+		viaPrintf := viaPrintfCand
+		if viaPrintf {
+			c.R.Add("records_through_a_printf_style_verb", 1)
+		}
+		viaLog := !viaPkg && !nilCtx && !viaPrintf && idx%6 == 1
 		if viaLog {
 			c.R.Add("records_through_the_verb_that_takes_a_log_slog_level", 1)
 		}
@@ -500,6 +515,8 @@ func c07main(c *Ctx) {
 				slog.InfoContext(ctx, "probe", args...)
 			case nilCtx:
 				lg.InfoContext(nil, "probe", args...) //nolint:staticcheck // nil context is in the property's domain
+			case viaPrintf:
+				_ = lg.Infof("%s", "probe")
 			case viaLog:
 				lg.Log(ctx, stdslog.LevelInfo, "probe", args...) // the verb that takes a log/slog level: the same sources, the same rule
 			default:
